@@ -106,7 +106,22 @@ def _c20_rule(op, args, impl):
     return (";" in a) or a.count(",") >= 2
 
 
+def _c07_rule(op, args, impl):
+    return args[0].count(",") >= 2
+
+
 INFO = {
+    "C07": {
+        "cli": True,
+        "rule": "all integer polynomials with <= 5 coefficients in a small range; products of 1..4 factors irreducible by construction (Eisenstein, irreducible modulo a prime, cyclotomic, Swinnerton-Dyer type x^4+1, x^4-10x^2+1, degree 8 and 16) with multiplicities up to 12 (>= 7 included), contents, negative and non-monic leading coefficients, large coefficients, x^n - 1, zero and constants, 25 and 26 linear factors (recombination limit); the random history of factorize_mod_p inside is captured and replayed into the model; CLI (to_find = factorization, polynomials) as a process. Non-trivial: degree >= 2.",
+        "rulefn": _c07_rule,
+        "trusted": ["hooked RNG + Lean draw decoder", "irreducibility certificates of the oracle: degree 1; irreducible modulo a prime (Rabin test / brute force); incompatible factor-degree sets modulo several primes; brute-force divisor search for small cases; otherwise the construction-time expectation supplied by the harness (191 of 5093 quick cases)"],
+        "gaps": ["irreducibility of the returned factors and completeness of the product (Mignotte bound + Hensel uniqueness + Cantor-Zassenhaus) are not proved: certified on every explored case by the oracle (exact product, distinctness, true multiplicities via proved-exact division, irreducibility certificates)",
+                 "termination of the prime search and of the modular factoriser is not proved"],
+        "assumptions": ["squarefree part of degree <= 25 modular factors (the implementation asserts lifted.len() <= 25; beyond that the oracle skips)"],
+        "level_text": "Theorems for all inputs about the building blocks the routine uses (signed content / primitive part; exactness of every trial division; the zero and constant cases of the model). The property's conclusion (irreducible factorisation with true multiplicities) is certified per explored case by an independent oracle; the model of the whole routine (bound, prime search, modular factorisation with the captured random history, Hensel lifting, subset recombination in the same order) is compared textually with the implementation.",
+        "level_note": "Trusted: Lean kernel + 3 standard axioms; RNG hook/decoder; correspondence coverage. Partial: irreducibility and completeness are certified per explored case, not proved.",
+    },
     "C20": {
         "rule": "lll on integer bases of dimension 2..8: plain random, nearly dependent rows, already reduced, unimodular images of reduced bases, knapsack-type, identity (entries up to 10^4 for the ill-conditioned families, larger for well-conditioned ones in the thorough tier; only non-singular bases, checked with an exact determinant); find_short_vectors / find_value on Gram matrices B*B^T of dimension <= 5 with bounds c = k + 1/2; find_muk on cyclotomic fields Phi_3..Phi_30, imaginary and real quadratic, cubic, quartic, quintic..octic fields with a real embedding and some totally complex fields, each repeated over the (hooked, seeded) random Newton starts. Non-trivial: a matrix argument or a polynomial of degree >= 2; distinct = distinct (op,args).",
         "rulefn": _c20_rule,
